@@ -140,6 +140,7 @@ package remoting
 //@   callspec RLock sets had = (advertiseAddr in rmc.mailboxes ? 1 : 0), prev = iface(rmc.mailboxes[advertiseAddr])
 //@   requires rmc != nil && rmc.mailboxes != nil && !held(rmc.lock)
 //@   requires forall a string :: a in rmc.mailboxes ==> rmc.mailboxes[a] != nil
+//@   lockinv  forall a string :: a in rmc.mailboxes ==> rmc.mailboxes[a] != nil
 //@   modifies rmc.mailboxes[*]
 //@   ensures  result != nil && !held(rmc.lock)
 //@   ensures  had == 1 ==> iface(result) == prev
